@@ -570,6 +570,10 @@ func c09Fixed(cfg Config, res *Result) {
 		{mm + "{% for j in l %}{{ forloop.Counter }}{{ mm(l) }}{{ forloop.Counter }}{% if forloop.Parentloop %}P{% endif %};{% endfor %}", "1-7-81;2-7-82;"},
 		{rec + "{% for j in l %}{{ rec(1) }};{% endfor %}", "778878;778878;"},
 		{`{% import "lib.tpl" lm %}{% for j in l %}{{ lm(l) }};{% endfor %}`, "-71-82;-71-82;"},
+		// ifchanged over several watched expressions: every one of them is remembered at every step
+		{"{% for r in rows1 %}{% ifchanged r.0 r.1 %}[{{ r.0 }}{{ r.1 }}]{% endifchanged %}{% endfor %}", "[ann1][bob2]"},
+		{"{% for r in rows2 %}{% ifchanged r.0 r.1 %}[{{ r.0 }}{{ r.1 }}]{% endifchanged %}{% endfor %}", "[ann1][bob2][bob1]"},
+		{"{% for r in rows3 %}{% ifchanged r.0 r.1 r.2 %}[{{ r.0 }}{{ r.1 }}{{ r.2 }}]{% else %}={% endifchanged %}{% endfor %}", "[a1x][b2y]=[b2x][a2x]="},
 		// (whether a loop of an included template counts the including loop as its parent is not fixed by the property: not checked)
 		{`{% include "inner.tpl" %}|{% for j in l %}{% endfor %}{% include "inner.tpl" %}`, "78|78"},
 	} {
@@ -581,7 +585,9 @@ func c09Fixed(cfg Config, res *Result) {
 		if err != nil {
 			got.err = err.Error()
 		} else {
-			got = execOnce(tpl, pongo2.Context{"m": map[string]int{"a": 1, "b": 2}, "l": []int{7, 8}})
+			got = execOnce(tpl, pongo2.Context{"m": map[string]int{"a": 1, "b": 2}, "l": []int{7, 8},
+				"rows1": [][]any{{"ann", 1}, {"bob", 2}, {"bob", 2}}, "rows2": [][]any{{"ann", 1}, {"bob", 2}, {"bob", 1}},
+				"rows3": [][]any{{"a", 1, "x"}, {"b", 2, "y"}, {"b", 2, "y"}, {"b", 2, "x"}, {"a", 2, "x"}, {"a", 2, "x"}}})
 		}
 		if got.err != "" || got.pan != "" || got.out != c.want {
 			res.add(Finding{Kind: "oracle", Proj: "reference", Sig: "c09-fixed", Case: c.src, Impl: got.String(), Model: "ok " + hxb(c.want)})
